@@ -25,7 +25,8 @@ type corpusEntry struct {
 	value  any        // what is encoded
 	target func() any // fresh decode target
 	// poison: encoding this value panics half-way by design. The panic is the reference result of the encode
-	// operations (decode operations are excluded); such entries are not run on the reused encoders
+	// operations (decode operations are excluded). On the reused encoders the next Clear() must bring the encoder
+	// back to its initial state; an encoder whose Clear() fails is replaced by the harness
 	poison bool
 	// mangle: applied to the XML / JSON reference encoding before it is decoded: the spelling a foreign peer might use
 	mangle func(op int, src []byte) []byte
@@ -195,6 +196,18 @@ func buildCorpus() {
 	}
 }
 
+func freshEncoder(op int) ttlv.Encoder {
+	switch op {
+	case opEncXML:
+		return ttlv.NewXMLEncoder()
+	case opEncJSON:
+		return ttlv.NewJSONEncoder()
+	case opEncText:
+		return ttlv.NewTextEncoder()
+	}
+	return ttlv.NewTTLVEncoder()
+}
+
 // codecOp executes one operation on one corpus entry and renders the result as a string.
 // encode operations on a reused encoder pass enc != nil.
 func codecOp(e *corpusEntry, op int, enc *ttlv.Encoder) (res string) {
@@ -206,7 +219,16 @@ func codecOp(e *corpusEntry, op int, enc *ttlv.Encoder) (res string) {
 	switch op {
 	case opEncTTLV, opEncXML, opEncJSON, opEncText:
 		if enc != nil {
-			enc.Clear()
+			// an encoder whose Clear() itself fails (after an aborted encode) cannot be "a reused, cleared encoder":
+			// it is discarded and replaced, and says nothing either way
+			func() {
+				defer func() {
+					if recover() != nil {
+						*enc = freshEncoder(op)
+					}
+				}()
+				enc.Clear()
+			}()
 			enc.Any(e.value)
 			return string(bytes.Clone(enc.Bytes()))
 		}
@@ -416,7 +438,7 @@ func execC20(x *X, scAny any) {
 			s.WaitUntil("warm-done", func() bool { return started })
 			encs := []ttlv.Encoder{ttlv.NewTTLVEncoder(), ttlv.NewXMLEncoder(), ttlv.NewJSONEncoder(), ttlv.NewTextEncoder()}
 			for _, st := range sc.History {
-				if !valid(st) || st.Op > opEncText || corpus[st.Entry].poison {
+				if !valid(st) || st.Op > opEncText {
 					continue
 				}
 				s.Eventf("reused %s #%d", codecOpNames[st.Op], st.Entry)
